@@ -48,9 +48,24 @@ func TestVerifC12AuthHist(t *testing.T) {
 			if e.Ev != "attempt" {
 				continue
 			}
-			want, err := verifx.C12HistReferee(e.Ver, e.Cred)
-			if err != nil || k >= len(hists[i].Verdicts) || want != hists[i].Verdicts[k] {
-				oracle("referee says %v (err %v) for %s under %s, specification says %v", want, err, e.Cred, e.Ver, hists[i].Verdicts)
+			// the verdicts the contents that may be in force prescribe, from the concrete htpasswd texts
+			ref := map[bool]bool{}
+			var rerr error
+			for _, v := range e.Live {
+				w, err := verifx.C12HistReferee(v, e.Cred)
+				if err != nil {
+					rerr = err
+				}
+				ref[w] = true
+			}
+			spec := map[bool]bool{}
+			if k < len(hists[i].Allowed) {
+				for _, b := range hists[i].Allowed[k] {
+					spec[b] = true
+				}
+			}
+			if rerr != nil || len(ref) == 0 || len(ref) != len(spec) || ref[true] != spec[true] || ref[false] != spec[false] {
+				oracle("referee says %v (err %v) for %s under %v, specification says %v", ref, rerr, e.Cred, e.Live, hists[i].Allowed)
 				verifx.Summary(map[string]any{"histories": 0})
 				return
 			}
@@ -78,7 +93,7 @@ func TestVerifC12AuthHist(t *testing.T) {
 	var text bytes.Buffer
 	for i := range hists {
 		files[i] = filepath.Join(dir, fmt.Sprintf("h%d.htpasswd", i))
-		if err := verifx.C12HistInstall(files[i], "v1", 0); err != nil {
+		if err := verifx.C12HistInstall(files[i], "v1", verifx.C12HistBaseMtime); err != nil {
 			t.Fatal(err)
 		}
 		name := fmt.Sprintf("h%d", i)
@@ -109,36 +124,70 @@ func TestVerifC12AuthHist(t *testing.T) {
 	defer px.Close()
 	client := &http.Client{Transport: &http.Transport{MaxIdleConnsPerHost: 32, DisableCompression: true}, Timeout: 60 * time.Second}
 
-	var ran, attempts, accepted, rejected, reloads, seq, nontrivial int64
+	var ran, attempts, accepted, rejected, reloads, seq, nontrivial, notApplied, skippedAfter, unchangedTime int64
+	// the refresh contract is a time bound: a replaced file is in force one refresh interval later.
+	// The harness waits 250 intervals (>= 5 s) before it calls a refresh missing.
+	bound := 250 * refresh
+	if bound < 5*time.Second {
+		bound = 5 * time.Second
+	}
 	var sampleMu sync.Mutex
 	var samples []string
 
 	runOne := func(i int) {
 		h := &hists[i]
 		name := fmt.Sprintf("h%d", i)
-		gen := 0
+		mtime := int64(verifx.C12HistBaseMtime) // of the file the scheme has loaded
 		k := 0
 		sawAccept := false
+		feat := func(clause, cause string) map[string]any {
+			return map[string]any{"sub": "auth-history", "clause": clause, "cause": cause}
+		}
 		for pos, e := range h.Events {
 			if e.Ev == "reload" {
-				gen++
-				if err := verifx.C12HistInstall(files[i], e.Ver, gen); err != nil {
+				if e.Mt != "equal" && atomic.LoadInt64(&notApplied) >= 3 {
+					// a tree whose refresh is broken: do not spend the time bound on every history
+					atomic.AddInt64(&skippedAfter, 1)
+					return
+				}
+				switch e.Mt {
+				case "older":
+					mtime -= 10
+				case "equal":
+				default:
+					mtime += 10
+				}
+				if err := verifx.C12HistInstall(files[i], e.Ver, mtime); err != nil {
 					oracle("install %s: %v", e.Ver, err)
 					return
 				}
+				if e.Mt == "equal" {
+					// documented: only a changed modification time triggers the refresh; either content may
+					// be in force from here on (the specification permits both verdicts)
+					atomic.AddInt64(&unchangedTime, 1)
+					continue
+				}
 				// causal barrier: the new content is in force once its sentinel user is accepted
-				deadline := time.Now().Add(30 * time.Second)
+				deadline := time.Now().Add(bound)
+				applied := false
 				for {
 					req := httptest.NewRequest("GET", "http://c12.test/", nil)
 					verifx.C12HistSentinel(req, e.Ver)
 					if schemes[name].Authorized(req, httptest.NewRecorder()) {
+						applied = true
 						break
 					}
 					if time.Now().After(deadline) {
-						oracle("history %d: the htpasswd refresh to %s was not picked up within 30 s", i, e.Ver)
-						return
+						break
 					}
 					time.Sleep(2 * time.Millisecond)
+				}
+				if !applied {
+					atomic.AddInt64(&notApplied, 1)
+					verifx.Fail(h, feat("refresh-not-applied", "mtime-"+e.Mt),
+						"history [%s], event %d: the htpasswd file was replaced by content %s with a modification time %s than that of the loaded file; %v later (refresh interval %v) the new content is still not in force - credentials of the old content stay valid",
+						h.Text(), pos+1, e.Ver, e.Mt, bound, refresh)
+					return
 				}
 				atomic.AddInt64(&reloads, 1)
 				continue
@@ -158,13 +207,17 @@ func TestVerifC12AuthHist(t *testing.T) {
 			n := atomic.LoadInt64(cnt)
 			hits.Delete(id)
 			atomic.AddInt64(&attempts, 1)
-			want := h.Verdicts[k]
-			feat := func(clause, cause string) map[string]any {
-				return map[string]any{"sub": "auth-history", "clause": clause, "cause": cause}
+			mayAccept, mayReject := false, false
+			for _, b := range h.Allowed[k] {
+				if b {
+					mayAccept = true
+				} else {
+					mayReject = true
+				}
 			}
 			desc := fmt.Sprintf("history [%s], attempt %d (event %d)", h.Text(), k+1, pos+1)
 			switch {
-			case resp.StatusCode == 200 && !want:
+			case resp.StatusCode == 200 && !mayAccept:
 				// counterfactual: a scheme instance that has seen nothing, on the same htpasswd file
 				cause := "credentials"
 				fresh, ferr := auth.LoadAuthSchemes(map[string]config.AuthScheme{"f": {Name: "f", Type: "basic", Basic: config.BasicAuth{File: files[i], Realm: "c12"}}})
@@ -178,7 +231,7 @@ func TestVerifC12AuthHist(t *testing.T) {
 				verifx.Fail(h, feat("authorized-must-not", cause),
 					"%s: status 200 and the upstream was hit %d time(s), but htpasswd content %s does not contain these credentials [cause: %s - a fresh scheme instance on the same file %s them]",
 					desc, n, e.Ver, cause, map[bool]string{true: "rejects", false: "also accepts"}[cause == "earlier-attempts"])
-			case resp.StatusCode == 401 && want:
+			case resp.StatusCode == 401 && !mayReject:
 				verifx.Fail(h, feat("unauthorized-must", "credentials"), "%s: status 401 although htpasswd content %s contains these credentials", desc, e.Ver)
 			case resp.StatusCode != 200 && resp.StatusCode != 401:
 				if resp.StatusCode == 502 || resp.StatusCode == 503 || resp.StatusCode == 504 || resp.StatusCode == 404 {
@@ -230,5 +283,6 @@ func TestVerifC12AuthHist(t *testing.T) {
 	close(jobs)
 	wg.Wait()
 	verifx.Summary(map[string]any{"histories": len(hists), "ran": ran, "attempts": attempts, "accepted": accepted, "rejected": rejected,
-		"reloads": reloads, "distinct_nontrivial": nontrivial, "samples": samples, "plumbing": plumbing})
+		"reloads": reloads, "refresh_not_applied": notApplied, "skipped_after_refresh_failures": skippedAfter,
+		"unchanged_mtime_replacements": unchangedTime, "distinct_nontrivial": nontrivial, "samples": samples, "plumbing": plumbing})
 }
